@@ -9,6 +9,20 @@ use std::sync::atomic::{AtomicU64, Ordering};
 
 static HASH_SEED: AtomicU64 = AtomicU64::new(0);
 static CALLS: AtomicU64 = AtomicU64::new(0);
+static TRACE: std::sync::atomic::AtomicBool = std::sync::atomic::AtomicBool::new(false);
+
+static TRACE_FD: AtomicU64 = AtomicU64::new(2);
+
+pub fn enable_trace(on: bool) {
+  if on {
+    let p = std::ffi::CString::new("/tmp/getrandom.trace").unwrap();
+    let fd = unsafe { libc::open(p.as_ptr(), libc::O_WRONLY | libc::O_CREAT | libc::O_APPEND, 0o644) };
+    if fd >= 0 {
+      TRACE_FD.store(fd as u64, Ordering::Relaxed);
+    }
+  }
+  TRACE.store(on, Ordering::Relaxed);
+}
 static PER_THREAD: std::sync::atomic::AtomicBool = std::sync::atomic::AtomicBool::new(true);
 
 /// `false`: every thread of the run gets the same keys (C17/C18 hold the hash dimension
@@ -50,6 +64,12 @@ pub unsafe extern "C" fn getrandom(buf: *mut u8, len: usize, _flags: u32) -> isi
     })
     .unwrap_or(0);
   let ctr = if per_thread { ctr } else { 0 };
+  if TRACE.load(Ordering::Relaxed) {
+    // debugging aid (AGSIM_TRACE_GETRANDOM): raw write, no allocation-dependent formatting
+    let name = std::thread::current().name().unwrap_or("?").to_string();
+    let line = format!("GETRANDOM seed={seed:016x} tid={tid} ctr={ctr} len={len} thread={name}\n");
+    libc::write(TRACE_FD.load(Ordering::Relaxed) as i32, line.as_ptr() as *const libc::c_void, line.len());
+  }
   let mut s = mix64(seed ^ mix64(tid.wrapping_mul(0x9E37_79B9_7F4A_7C15) ^ ctr.wrapping_mul(0xD6E8_FEB8_6659_FD93)));
   let mut i = 0usize;
   while i < len {
